@@ -116,6 +116,21 @@ func observeC07(r *astRun) interface{} {
 		pkgIdx[p] = i
 		nodes[ref{900000 + i, []int{}}.key()] = p
 	}
+	// on every second world the read accessors of every entity are called first: a walk is a walk of
+	// the AST, whatever was asked of it before (deterministic in the input, so a replay repeats it)
+	if (len(r.w.Walks)+len(r.w.Files))%2 == 1 {
+		for _, en := range allEntities(r) {
+			for _, acc := range accessorsOf(en.kind) {
+				if acc == "walk" || acc == "walkfail" || acc == "desc" || ((acc == "deps" || acc == "dpts" || acc == "edpts" || acc == "dependents") && !r.w.Bidi) {
+					continue
+				}
+				func() {
+					defer func() { recover() }()
+					callAccessor(r, en.e, acc)
+				}()
+			}
+		}
+	}
 	out := []walkObs{}
 	for _, wk := range r.w.Walks {
 		run := &walkRun{r: r, pol: map[string]polAct{}, pkgIdx: pkgIdx, trace: [][]interface{}{}}
